@@ -502,3 +502,22 @@ package transaction
 //@   at call(pessimisticRollbackMutations) assert allpess: arg_mutations.(*memBufferMutations) == c.mutations && c.isPessimistic
 //@   at call(resolveFlushedLocks) assert range: !arg_commit && arg_start == c.pipelinedCommitInfo.pipelinedStart && arg_end == c.pipelinedCommitInfo.pipelinedEnd
 //@   at return assert done: !c.txn.isPipelined && (c.useOnePC == 0 || c.isPessimistic) ==> c.cuTried || c.rbTried
+
+// ---- C04: the operation a buffered entry is prewritten with ----------------------------------------------------------------
+// For every buffer entry that becomes a mutation the operation is the one the entry implies: an entry without value is a
+// lock (shared or exclusive as flagged; unlocked flag-only entries are skipped); a non-empty value is a put - an insert when
+// the key is presumed absent - unless the filter calls it unnecessary, then only a held lock is converted; an empty value
+// is a delete, except for an insert-then-delete: in an optimistic transaction a non-locking existence check, in a pessimistic
+// one (newly inserted) nothing but the conversion of a held lock. The pessimistic flag of the mutation is the transaction's
+// mode for locked keys and false otherwise.
+//@ func (*twoPhaseCommitter) initKeysAndMutations
+//@   prop C04
+//@   bytes: key
+//@   may-panic
+//@   opaque-callee GetMemDB GetMemBuffer newMemBufferMutations Len IsUnnecessaryKeyValue Handle checkAssertionByPessimisticLockResults UpdateFlags txnLockTTL setDetail GetRequestSource IsInternalRequest ToPB StartTS GetKey
+//@   loop 1 invariant l1: it != nil
+//@   loop 2 invariant l2: true
+//@   at call(Push) assert op: arg_op == ite(!art.aHasValue(it, it.apos), ite(flags.HasLockedInShareMode(), kvrpcpb.Op_SharedLock, kvrpcpb.Op_Lock),
+//@       ite(value != "", ite(isUnnecessaryKV, ite(flags.HasLockedInShareMode(), kvrpcpb.Op_SharedLock, kvrpcpb.Op_Lock), ite(flags.HasPresumeKeyNotExists(), kvrpcpb.Op_Insert, kvrpcpb.Op_Put)),
+//@           ite(!c.txn.isPessimistic && flags.HasPresumeKeyNotExists(), kvrpcpb.Op_CheckNotExists, ite(flags.HasNewlyInserted(), ite(flags.HasLockedInShareMode(), kvrpcpb.Op_SharedLock, kvrpcpb.Op_Lock), kvrpcpb.Op_Del))))
+//@   at call(Push) assert mode: arg_isPessimisticLock == (flags.HasLocked() && c.isPessimistic)
